@@ -1,7 +1,7 @@
 SPECIFICATION Spec
 CONSTANTS
   NodeKinds <- KindsAll
-  MaxLen = 2
+  MaxLen = 1
   Configs <- ConfigsQuick
   TexDevs <- NoDevs
   Bug = ""
